@@ -149,7 +149,7 @@ fn no_mult() -> BoxedStrategy<f64> {
 fn strategy(lo: usize, hi: usize) -> BoxedStrategy<Case> {
     prop_oneof![
         cfg_among(&SK, 512, no_mult)
-            .prop_flat_map(move |cfg| { let h2 = hi.max(3 * cfg.n() + 40); (Just(cfg), prop_oneof![6 => stream(Domain::PositiveGrid, lo, h2), 6 => stream(Domain::Positive, lo, h2), 1 => stream(Domain::TinyPositive, lo, h2)]) })
+            .prop_flat_map(move |cfg| { let h2 = hi.max(3 * cfg.n() + 40); (Just(cfg), prop_oneof![6 => stream(Domain::PositiveGrid, lo, h2), 6 => stream(Domain::Positive, lo, h2), 1 => stream(Domain::TinyPositive, lo, h2), 1 => stream(Domain::Huge, lo, h2)]) })
             .prop_map(|(cfg, s)| Case { cfg, scalar: true, xs: xs(&s.vals), bars: vec![], stride: 0 }),
         cfg_among(&BK, 512, no_mult)
             .prop_flat_map(move |cfg| { let h2 = hi.max(3 * cfg.n() + 40); (Just(cfg), prop_oneof![6 => bar_stream(true, lo, h2), 6 => bar_stream(false, lo, h2), 1 => bar_stream_tiny(lo, h2)]) })
